@@ -433,3 +433,17 @@ with tree_okb_cs (cs : clist) : bool :=
   | CNil => true
   | CCons _ _ sub rest => tree_okb sub && tree_okb_cs rest
   end.
+
+(* command names that cannot be taken for options: non-empty, not starting with a dash (the converse of
+   C01 for trees needs it: a command name is compared with the original text of a token, and the
+   text of an option token starts with a dash or is empty) *)
+Definition plainb (w : bytes) : bool := match w with [] => false | c :: _ => negb (c =? c_dash)%N end.
+
+Fixpoint plain_cmds (l : level) {struct l} : bool :=
+  match l with Level _ (TCmds cs) => plain_cs cs | _ => true end
+with plain_cs (cs : clist) {struct cs} : bool :=
+  match cs with
+  | CNil => true
+  | CCons name aliases sub rest => forallb plainb (name :: aliases) && plain_cmds sub && plain_cs rest
+  end.
+
